@@ -18,40 +18,40 @@ Definition signed_of (k:ik) : ik := match k with U8 => I8 | U16 => I16 | U32 => 
 
 Section Ints.
 Variable chk : bool.   (* overflow checks (debug profile) *)
-Definition arith (k:ik) (r:Z) : res Z := if inr k r then Ok r else if chk then Panic else Ok (wrap k r).
-Definition zi_2 (k:ik) (o:iop2) (a b:Z) : res Z :=
+Definition arith (k:ik) (r:Z) : option Z := if inr k r then Some r else if chk then None else Some (wrap k r).
+Definition zi_2 (k:ik) (o:iop2) (a b:Z) : option Z :=
   match o with
   | IAdd => arith k (a + b) | ISub => arith k (a - b) | IMul => arith k (a * b)
-  | IDiv => if Z.eqb b 0 then Panic else if signed k && Z.eqb a (imin k) && Z.eqb b (-1) then Panic else Ok (Z.quot a b)
-  | IRem => if Z.eqb b 0 then Panic else if signed k && Z.eqb a (imin k) && Z.eqb b (-1) then Panic else Ok (Z.rem a b)
-  | IWAdd => Ok (wrap k (a + b)) | IWSub => Ok (wrap k (a - b)) | IWMul => Ok (wrap k (a * b))
-  | IWDiv => if Z.eqb b 0 then Panic else Ok (wrap k (Z.quot a b))
-  | ISAdd => Ok (sat k (a + b)) | ISSub => Ok (sat k (a - b)) | ISMul => Ok (sat k (a * b))
-  | ISDiv => if Z.eqb b 0 then Panic else Ok (sat k (Z.quot a b))
-  | IAnd => Ok (Z.land a b) | IOr => Ok (Z.lor a b) | IXor => Ok (Z.lxor a b)
-  | IMin => Ok (Z.min a b) | IMax => Ok (Z.max a b)
-  | IDivEuclid => if Z.eqb b 0 then Panic else if signed k && Z.eqb a (imin k) && Z.eqb b (-1) then Panic else
-      let q := Z.quot a b in Ok (if Z.ltb (Z.rem a b) 0 then (if Z.ltb 0 b then q - 1 else q + 1) else q)
-  | IRemEuclid => if Z.eqb b 0 then Panic else if signed k && Z.eqb a (imin k) && Z.eqb b (-1) then Panic else
-      let r := Z.rem a b in Ok (if Z.ltb r 0 then r + Z.abs b else r)
-  | IAbsDiff => Ok (Z.abs (a - b))
+  | IDiv => if Z.eqb b 0 then None else if signed k && Z.eqb a (imin k) && Z.eqb b (-1) then None else Some (Z.quot a b)
+  | IRem => if Z.eqb b 0 then None else if signed k && Z.eqb a (imin k) && Z.eqb b (-1) then None else Some (Z.rem a b)
+  | IWAdd => Some (wrap k (a + b)) | IWSub => Some (wrap k (a - b)) | IWMul => Some (wrap k (a * b))
+  | IWDiv => if Z.eqb b 0 then None else Some (wrap k (Z.quot a b))
+  | ISAdd => Some (sat k (a + b)) | ISSub => Some (sat k (a - b)) | ISMul => Some (sat k (a * b))
+  | ISDiv => if Z.eqb b 0 then None else Some (sat k (Z.quot a b))
+  | IAnd => Some (Z.land a b) | IOr => Some (Z.lor a b) | IXor => Some (Z.lxor a b)
+  | IMin => Some (Z.min a b) | IMax => Some (Z.max a b)
+  | IDivEuclid => if Z.eqb b 0 then None else if signed k && Z.eqb a (imin k) && Z.eqb b (-1) then None else
+      let q := Z.quot a b in Some (if Z.ltb (Z.rem a b) 0 then (if Z.ltb 0 b then q - 1 else q + 1) else q)
+  | IRemEuclid => if Z.eqb b 0 then None else if signed k && Z.eqb a (imin k) && Z.eqb b (-1) then None else
+      let r := Z.rem a b in Some (if Z.ltb r 0 then r + Z.abs b else r)
+  | IAbsDiff => Some (Z.abs (a - b))
   end.
-Definition zi_1 (k:ik) (o:iop1) (a:Z) : res Z :=
-  match o with INeg => arith k (- a) | IAbs => arith k (Z.abs a) | ISignum => Ok (Z.sgn a) | INot => Ok (if signed k then - a - 1 else imax k - a) | IWrappingNeg => Ok (wrap k (- a)) end.
+Definition zi_1 (k:ik) (o:iop1) (a:Z) : option Z :=
+  match o with INeg => arith k (- a) | IAbs => arith k (Z.abs a) | ISignum => Some (Z.sgn a) | INot => Some (if signed k then - a - 1 else imax k - a) | IWrappingNeg => Some (wrap k (- a)) end.
 Definition zi_checked (k:ik) (o:iop2) (a b:Z) : option Z :=
   match o with
   | IAdd => if inr k (a + b) then Some (a + b) else None | ISub => if inr k (a - b) then Some (a - b) else None | IMul => if inr k (a * b) then Some (a * b) else None
   | IDiv => if Z.eqb b 0 then None else if inr k (Z.quot a b) then Some (Z.quot a b) else None
   | _ => None end.
-Definition shcount (k kc:ik) (b:Z) : res Z := if Z.leb 0 b && Z.ltb b (bits k) then Ok b else if chk then Panic else Ok (b mod bits k).
-Definition zi_shl (k kc:ik) (a b:Z) : res Z := match shcount k kc b with Ok c => Ok (wrap k (Z.shiftl a c)) | Panic => Panic | UB s => UB s | OutOfFuel => OutOfFuel | Stuck s => Stuck s end.
-Definition zi_shr (k kc:ik) (a b:Z) : res Z := match shcount k kc b with Ok c => Ok (Z.shiftr a c) | Panic => Panic | UB s => UB s | OutOfFuel => OutOfFuel | Stuck s => Stuck s end.
+Definition shcount (k kc:ik) (b:Z) : option Z := if Z.leb 0 b && Z.ltb b (bits k) then Some b else if chk then None else Some (b mod bits k).
+Definition zi_shl (k kc:ik) (a b:Z) : option Z := match shcount k kc b with Some c => Some (wrap k (Z.shiftl a c)) | None => None end.
+Definition zi_shr (k kc:ik) (a b:Z) : option Z := match shcount k kc b with Some c => Some (Z.shiftr a c) | None => None end.
 Open Scope string_scope.
-Definition zi_mixed (k:ik) (nm:string) (a b:Z) : res Z :=
-  if String.eqb nm "wrapping_add_unsigned" || String.eqb nm "wrapping_add_signed" then Ok (wrap k (a + b))
-  else if String.eqb nm "wrapping_sub_unsigned" then Ok (wrap k (a - b))
-  else if String.eqb nm "saturating_add_unsigned" || String.eqb nm "saturating_add_signed" then Ok (sat k (a + b))
-  else if String.eqb nm "saturating_sub_unsigned" then Ok (sat k (a - b)) else Stuck "mixed".
+Definition zi_mixed (k:ik) (nm:string) (a b:Z) : option Z :=
+  if String.eqb nm "wrapping_add_unsigned" || String.eqb nm "wrapping_add_signed" then Some (wrap k (a + b))
+  else if String.eqb nm "wrapping_sub_unsigned" then Some (wrap k (a - b))
+  else if String.eqb nm "saturating_add_unsigned" || String.eqb nm "saturating_add_signed" then Some (sat k (a + b))
+  else if String.eqb nm "saturating_sub_unsigned" then Some (sat k (a - b)) else None.
 Definition zi_mixed_checked (k:ik) (nm:string) (a b:Z) : option Z :=
   let r := if String.eqb nm "checked_sub_unsigned" then a - b else a + b in if inr k r then Some r else None.
 Close Scope string_scope.
